@@ -251,3 +251,82 @@ package input
 // reservedGetters is filled by reflection over *container.Container (outside the modelled subset).
 //@ func init#2
 //@   trusted "uses reflect to enumerate the method set of *container.Container (A10)"
+
+// ---- C11 layer 1: the language of every grammar regex equals an independently written specification.
+// The specification side is written from docs/ and the property text in a different style
+// (intersections and complements of simple conditions, composed as the documentation composes them);
+// the code side is the pattern the compiler sees, wrapped exactly as MustCompileAz wraps it.
+
+// Go identifier as the docs use it: starts with a letter, only letters, digits and "_".
+//@ spec goTokenL() relang = reAnd(reFull("[A-Za-z](?s:.)*"), reNot(reFull("(?s:.)*[^A-Za-z0-9_](?s:.)*")))
+// YAML-level name: starts with a letter, ends with a letter or digit, only letters, digits, ".", "-", "_", no two separators in a row.
+//@ spec yamlTokenL() relang = reAnd(reFull("[A-Za-z](?s:.)*"), reFull("(?s:.)*[A-Za-z0-9]"),
+//@                                reNot(reFull("(?s:.)*[^A-Za-z0-9._-](?s:.)*")), reNot(reFull("(?s:.)*[._-][._-](?s:.)*")))
+// Unquoted import path: starts with a letter, only letters, digits, ".", "_", "-", "/", no "//", no trailing "/".
+//@ spec baseImportL() relang = reAnd(reFull("[A-Za-z](?s:.)*"), reNot(reFull("(?s:.)*[^A-Za-z0-9._/-](?s:.)*")),
+//@                                 reNot(reFull("(?s:.)*//(?s:.)*")), reNot(reFull("(?s:.)*/")))
+// Import as written in configs: unquoted, quoted, or "." in quotes for the current package.
+//@ spec importL() relang = reAlt(baseImportL(), reCat(reLit("\""), baseImportL(), reLit("\"")), reLit("\".\""))
+// Function reference: optional import and a dot, then a Go identifier.
+//@ spec goFuncL() relang = reCat(reOpt(reCat(importL(), reLit("."))), goTokenL())
+// Type: optional "*", optional import and a dot, Go identifier.
+//@ spec serviceTypeL() relang = reCat(reOpt(reLit("*")), reOpt(reCat(importL(), reLit("."))), goTokenL())
+// Value: optional "&", optional import and a dot, then either a dotted chain of identifiers or an identifier followed by "{}".
+//@ spec serviceValueL() relang = reCat(reOpt(reLit("&")), reOpt(reCat(importL(), reLit("."))),
+//@        reAlt(reCat(goTokenL(), reStar(reCat(reLit("."), goTokenL()))), reCat(goTokenL(), reLit("{}"))))
+//@ spec decoratorTagL() relang = reAlt(reLit("*"), yamlTokenL())
+
+//@ lemma lang_ParamName(x string)
+//@   property C11
+//@   ensures [equiv] matches(x, regexParamName) <==> inLang(x, yamlTokenL())
+//@ lemma lang_MetaPkg(x string)
+//@   property C11
+//@   ensures [equiv] matches(x, regexpMetaPkg) <==> inLang(x, goTokenL())
+//@ lemma lang_MetaContainerType(x string)
+//@   property C11
+//@   ensures [equiv] matches(x, regexpMetaContainerType) <==> inLang(x, goTokenL())
+//@ lemma lang_MetaContainerConstructor(x string)
+//@   property C11
+//@   ensures [equiv] matches(x, regexpMetaContainerConstructor) <==> inLang(x, goTokenL())
+//@ lemma lang_MetaImport(x string)
+//@   property C11 C14
+//@   ensures [equiv] matches(x, regexMetaImport) <==> inLang(x, importL())
+//@ lemma lang_MetaImportAlias(x string)
+//@   property C11 C14
+//@   ensures [equiv] matches(x, regexMetaImportAlias) <==> inLang(x, yamlTokenL())
+//@ lemma lang_MetaFn(x string)
+//@   property C11
+//@   ensures [equiv] matches(x, regexMetaFn) <==> inLang(x, goTokenL())
+//@ lemma lang_MetaGoFn(x string)
+//@   property C11
+//@   ensures [equiv] matches(x, regexMetaGoFn) <==> inLang(x, goFuncL())
+//@ lemma lang_ServiceName(x string)
+//@   property C11
+//@   ensures [equiv] matches(x, regexServiceName) <==> inLang(x, yamlTokenL())
+//@ lemma lang_ServiceGetter(x string)
+//@   property C11 C13
+//@   ensures [equiv] matches(x, regexServiceGetter) <==> inLang(x, goTokenL())
+//@ lemma lang_ServiceType(x string)
+//@   property C11
+//@   ensures [equiv] matches(x, regexServiceType) <==> inLang(x, serviceTypeL())
+//@ lemma lang_ServiceValue(x string)
+//@   property C11
+//@   ensures [equiv] matches(x, regexServiceValue) <==> inLang(x, serviceValueL())
+//@ lemma lang_ServiceConstructor(x string)
+//@   property C11
+//@   ensures [equiv] matches(x, regexServiceConstructor) <==> inLang(x, goFuncL())
+//@ lemma lang_ServiceCallName(x string)
+//@   property C11
+//@   ensures [equiv] matches(x, regexServiceCallName) <==> inLang(x, goTokenL())
+//@ lemma lang_ServiceFieldName(x string)
+//@   property C11
+//@   ensures [equiv] matches(x, regexServiceFieldName) <==> inLang(x, goTokenL())
+//@ lemma lang_ServiceTag(x string)
+//@   property C11 C04
+//@   ensures [equiv] matches(x, regexServiceTag) <==> inLang(x, yamlTokenL())
+//@ lemma lang_DecoratorTag(x string)
+//@   property C11 C04
+//@   ensures [equiv] matches(x, regexDecoratorsTag) <==> inLang(x, decoratorTagL())
+//@ lemma lang_DecoratorMethod(x string)
+//@   property C11
+//@   ensures [equiv] matches(x, regexDecoratorMethod) <==> inLang(x, goFuncL())
